@@ -189,6 +189,54 @@ def task(cfg):
     return cov, viols
 
 
+def toplist_enumeration(tier):
+    """Function-level exhaustive block: get_top_list on every rung of <= 5 (thorough: 6) entries, every subset of failed
+    entries, every ranking of the surviving ones, every size of the next rung, both modes. Oracle written from the
+    property: as many as the next rung has slots; survivors first, best first; failed ones only when survivors run out;
+    the two returned lists partition the rung."""
+    import itertools
+    from syne_tune.optimizer.schedulers.synchronous.hyperband_bracket import get_top_list
+    viols, n_eval, shapes = [], 0, set()
+    for n in range(1, (6 if tier == "quick" else 7)):
+        ids = [7 + 3 * i for i in range(n)]
+        for failed in itertools.product((False, True), repeat=n):
+            valid_pos = [i for i in range(n) if not failed[i]]
+            perms = itertools.permutations(range(len(valid_pos)))
+            if n == 6:
+                perms = itertools.islice(perms, 0, 720, 7)
+            for perm in perms:
+                vals = [float("nan")] * n
+                for rk, i in zip(perm, valid_pos):
+                    vals[i] = 0.25 * rk - 0.5          # distinct, both signs, an exact zero
+                rung = list(zip(ids, vals))
+                for new_len in range(1, n + 1):
+                    for mode in ("min", "max"):
+                        n_eval += 1
+                        shapes.add((n, sum(failed), new_len, mode))
+                        top, rest = get_top_list(list(rung), new_len, mode)
+                        order = sorted(valid_pos, key=lambda i: vals[i], reverse=(mode == "max"))
+                        best = [ids[i] for i in order[:new_len]]
+                        n_pad = max(0, new_len - len(valid_pos))
+                        key = None
+                        if len(top) != new_len or len(set(top)) != len(top):
+                            key = "size"
+                        elif [t for t in top if not failed[ids.index(t)]] != best and \
+                                sorted(t for t in top if not failed[ids.index(t)]) != sorted(best):
+                            key = "survivors-not-the-best"
+                        elif sum(1 for t in top if failed[ids.index(t)]) != n_pad:
+                            key = "failed-promoted-although-survivors-left"
+                        elif sorted(top + rest) != sorted(ids):
+                            key = "not-a-partition"
+                        if key:
+                            k = f"toplist|sync:top-list:{key}"
+                            if not any(v.key == k for v in viols):
+                                viols.append(Violation(PROP, k, f"get_top_list({rung}, {new_len}, {mode!r}) = {(top, rest)}; the best "
+                                                                f"survivors are {best}, {n_pad} failed entries may be taken",
+                                                       {"engine": "enum", "rung": [[a, None if b != b else b] for a, b in rung],
+                                                        "new_len": new_len, "mode": mode}))
+    return viols, n_eval, len(shapes)
+
+
 def configs(tier, seed):
     out = []
     names = ["geo1-4-2", "custom", "single", "geo1-4-2b1"] if tier == "quick" else list(SYSTEMS)
@@ -248,11 +296,18 @@ def run(tier, seed):
     for cov, viols in pmap(task, cfgs):
         res.cov.merge(cov)
         res.violations.extend(viols)
+    tv, tn, tshapes = toplist_enumeration(tier)
+    res.violations.extend(tv)
+    res.cov.add("evaluations", tn)
+    res.cov.extra["toplist_calls"] = tn
+    res.cov.extra["toplist_distinct_shapes"] = tshapes
     res.rule = ("BFS over event histories {suggest, report(t), fail(t)} of the real SynchronousHyperbandScheduler with "
                 "digest dedup; configuration = bracket/rung-size system (geometric, custom) x mode x workers x failure "
                 "budget x rank permutation x max_resource_attr/scratch; oracle = reference bracket model (lowest open bracket "
                 "with a free slot else new bracket with cycling offset; rung completes when all slots reported or failed; "
-                "top-n' by value, NaN last) stepped in lock-step. distinct_nontrivial = distinct implementation states.")
+                "top-n' by value, NaN last) stepped in lock-step. distinct_nontrivial = distinct implementation states. Plus a function-level "
+                "exhaustive block (evaluations): get_top_list on every rung of <=5 (thorough 6) entries x every subset of failed entries "
+                "x every ranking of the survivors x every next-rung size x mode.")
     res.bounds = {"configs": len(cfgs), "tier": tier}
     res.assumptions = list(env.ASSUMPTIONS) + [
         "order in which promoted trials of one rung are resumed is not prescribed: any not-yet-scheduled promoted trial is accepted"]
@@ -260,6 +315,11 @@ def run(tier, seed):
 
 
 def replay(data):
+    if data.get("engine") == "enum":
+        from syne_tune.optimizer.schedulers.synchronous.hyperband_bracket import get_top_list
+        rung = [(a, float("nan") if b is None else b) for a, b in data["rung"]]
+        top, rest = get_top_list(rung, data["new_len"], data["mode"])
+        return [v for v in toplist_enumeration("quick")[0]]
     cfg = data["cfg"]
     hist = [tuple(e) for e in data["history"]]
     w = build_world(cfg)
